@@ -18,6 +18,7 @@ import BctVerif.Props.CoresEff
 import BctVerif.Props.CoresLoc
 import BctVerif.Props.CoresDinv
 import BctVerif.Props.CoresEffW
+import BctVerif.Props.CoresLocW
 import BctVerif.Props.CoresWalks
 import BctVerif.Props.CoresMod
 import BctVerif.Props.CoresSynth
@@ -46,6 +47,7 @@ modules imported here prove, once and for all extracted values, what a passed ob
 | char (C03) | `Model/CoreIRChar.lean` | `CoresChar`: `pre_spec`, `tail_spec`, `meanC_spec`, `rowMax_spec`, `link_charpath` | `Dist.charpath`, `meanExt`, `eccCells`, `eccOf`, `radiusDiameter` |
 | eff (C03) | `Model/CoreIREff.lean` (statement language of `Model/CoreIRBin.lean`) | `CoresEff`: `body_spec`, `loop_spec`, `inner_spec`, `sumExt_offDiag`, `link_efficiency_bin` | `Dist.binLoop`, `binRaw`, `distBin`, `meanInvOff`, `efficiencyBin` |
 | eff, `efficiency_wei` global part (C03, C10) | `Model/CoreIRDinv.lean` (statement language and interpreter of `Model/CoreIRDijk.lean`), `Model/CoreIREffW.lean` | `CoresDinv`: `block_envD`, `forNodesD_spec`, `settleD_spec`, `tailD_spec`, `passD_spec`, `whileD_spec`, `rowD_spec`, `rowsD_spec`, `link_dinv_dijk`; `CoresEffW`: `Gl_eq`, `lenMat_inv`, `invMatOf_ext`, `sum_inv`, `link_efficiency_wei` | `Dist.relaxFrom`, `settle`, `minOver`, `dLoop`, `dRow`, `dijkstra` (distances), `lenMat .inv`, `meanInvOff`, `efficiencyWei` |
+| eff, `efficiency_wei` local branches (C03, C10) | `Model/CoreIRLocW.lean` (nested function through `Model/CoreIREffW.lean`) | `CoresLocW`: `allFin_embG`, `Wq_eq`, `cells_all`, `inv_isFin`, `node_spec`, `link_efficiency_wei_local` | `LocalEff.nbrs`, `subMat`, `links`, `core`, `invCell`, `effWeiNode`; `Dist.lenMat`, `dijkstra` |
 | eff, local branch (C03) | `Model/CoreIRLoc.lean` (nested function and statement language of `Model/CoreIRBin.lean`) | `CoresLoc`: `subV_numM`, `binarize_sub`, `finiteInv_distOf`, `invCell_distOf`, `node_spec`, `link_efficiency_bin_local` | `LocalEff.nbrs`, `subMat`, `links`, `core`, `effBinOn`, `effBinNode` (`Dist.distBin` on the neighbourhood) |
 | walks (C18) | `Model/CoreIRWalks.lean` (expressions of `Model/CoreIRClust.lean`) | `CoresWalks`: `pre_spec`, `tail_spec`, `link_pagerank`, `link_pagerank_model`, `solve_diag_unique`, `link_mfpt_model` | `Walks.colDeg`, `prMat`, `prior`, `solves`, `pagerank`; `Walks.transition`, `fundArg`, `isInvOf`, `mfpt` |
 | modq (C02, C07) | `Model/CoreIRMod.lean` (expressions of `Model/CoreIRClust.lean`), `Model/CoreIRPin.lean` | `CoresMod`: `link_mod_und`, `link_mod_dir` (the other routines of the family are source pins without link theorems) | `Modularity.modularityUndGiven`, `modularityDirGiven` |
